@@ -100,6 +100,7 @@ type Frame struct {
 	defers   []*ssa.Defer
 	goBodies []*ssa.Function
 	onReturn func(st *State, vals []Val)
+	spawned  []*ssa.MakeClosure // goroutines started by this frame (function literals)
 	// inlined frames: the calling frame, and the loop clauses the contract of the function under
 	// verification gives for this inlining ("loop <n> in <callee>")
 	parent   *Frame
@@ -183,7 +184,9 @@ func VerifyFunction(p *Program, fn *ssa.Function, c *Contract) (fc *FuncCtx, err
 			case elabErr:
 				err = fmt.Errorf("spec error: %s", e.msg)
 			default:
-				panic(r)
+				// a construct the generator does not handle: the function is reported as undecidable
+				// (a failed `#generate` obligation) instead of aborting the whole check
+				err = fmt.Errorf("generator failure: %v", r)
 			}
 		}
 	}()
